@@ -733,9 +733,19 @@ def renderFileWith (P : Prims) (O : OutPrims) (cfg : Cfg) (fs : FS)
       | (_, .panic w) => .panic w
       | (_, .unmodelled w) => .unmodelled w
 
-/-- tie the include knot by recursion on the fuel -/
+/-- `maxIncludeDepth` of `render/context.go`: the number of include tags a render may be nested in -/
+def maxIncludeDepth : Nat := 100
+
+/-- the plain error of `RenderFile` at `depth >= maxIncludeDepth`
+    (`fmt.Errorf("include nesting too deep (more than %d levels) at %s", …)`) -/
+def includeDepthErr : RawErr := .plain .includeDepth
+
+/-- `ctx.RenderFile` of a render nested in `maxIncludeDepth - fuel` include tags: the fuel IS
+    `maxIncludeDepth - ctx.depth`. At fuel 0 (`depth >= maxIncludeDepth`) the handler refuses with
+    the depth error BEFORE the file is read; at fuel n+1 the file is rendered with `depth + 1`,
+    i.e. with the fuel-n handler inside. -/
 def incFuel (P : Prims) (O : OutPrims) (cfg : Cfg) (fs : FS) : Nat → Nat → Bytes → Env → Prog (Status × Bytes)
-  | 0 => fun _ _ _ => .unmodelled "include depth exceeds the fuel (cyclic include?)"
+  | 0 => fun _ _ _ => .fail includeDepthErr
   | n+1 => renderFileWith P O cfg fs (incFuel P O cfg fs n)
 
 def mkCtx (P : Prims) (O : OutPrims) (cfg : Cfg) (fs : FS) (fuel : Nat) : RCtx :=
